@@ -296,15 +296,20 @@ func doParseType(vt reflect.Type, def string, i *int, allowPtrs bool) (*Type, er
 
 		/* prohibit nested pointers */
 		if !allowPtrs {
-			return nil, EType(ret.V.S, "nested pointer is not allowed")
+			return nil, EType(vt, "nested pointer is not allowed")
 		}
 
 		/* parse the pointer element recursively */
 		if ret.V, err = doParseType(vt.Elem(), def, i, false); err != nil {
 			return nil, err
-		} else {
-			return ret, nil
 		}
+
+		/* maps and slices are reference types already, the codec has no notion of a pointer to them */
+		switch ret.V.T {
+		case T_map, T_set, T_list:
+			return nil, EType(vt, "pointers to map, set or list are not allowed")
+		}
+		return ret, nil
 	}
 
 	/* check for value kind */
